@@ -219,10 +219,12 @@ def aws_kms_wipe(run):
     g = run.tlc("KmsRegionsGen.tla", "KGEN.cfg", timeout=900, out_name="kgen.out")
     run.tlc_must_hold(g, "KmsRegionsGen case generation")
     trace = os.path.join(run.work, "trace.ndjson")
-    res = run.drv(["-in", g.path, "-trace", trace, "-seed", str(run.seed), "-repeat", "1"], timeout=1800, binary=run.gobin("kmsdrv"))
+    rej = []
+    for variant in ([], ["-stale"]):      # plain, and with a stale key-encryption key in the preferred unwrap region (fallback to the next)
+        res = run.drv(["-in", g.path, "-trace", trace, "-seed", str(run.seed), "-repeat", "1"] + variant, timeout=1800, binary=run.gobin("kmsdrv"))
+        run.absorb(res)
+        rej += validate_traces(run, "KmsWipeTrace.tla", {}, [], trace, "kms-wipe" + "".join(variant), max_reject=3)
     os.remove(g.path)
-    run.absorb(res)
-    rej = validate_traces(run, "KmsWipeTrace.tla", {}, [], trace, "kms-wipe", max_reject=3)
     for x in rej:
         ev, rs = x["event"], x["reset"]
         what = "GenerateDataKey plaintext not wiped after EncryptKey" if ev.get("e") == "wrap" else "KMS Decrypt plaintext not wiped after DecryptKey"
